@@ -143,6 +143,39 @@ def stream_accounting(refuse, failed, thr, a1, e1, a2, e2, a3, e3, closing_enabl
     return None
 
 
+def upload_wiring(kind, chunked, size, thr, chunk, r1):
+    """C13.5: with max_bandwidth set the manager has ONE bucket; upload bodies are throttled exactly while they are
+    being sent: bytes read while the request is built (signing pre-read) are not charged, every byte sent is charged
+    (directly, or with the remainder at close) - also when botocore wraps the body in AwsChunkedWrapper"""
+    from harness import common as H
+    from s3transfer.bandwidth import BandwidthLimiter
+    env = F.Env()
+    s3 = F.FakeS3(env, body_reads=[r1, r1, r1, r1], preread=True)
+    s3.chunked = chunked
+    cfg = H.TransferConfig(multipart_threshold=thr, multipart_chunksize=chunk, max_bandwidth=10 ** 6)
+    fs = F.FakeFS(env)
+    m = H.TransferManager(s3, cfg, osutil=F.make_osutils(fs, src_size=size, env=env),
+                          executor_cls=H.NonThreadedExecutor)
+    if m._bandwidth_limiter is None:
+        return 'bw: max_bandwidth set but no bandwidth limiter created'
+    bucket = StubBucket(0, 1)
+    m._bandwidth_limiter = BandwidthLimiter(bucket, FakeTime())
+    src = '/s/source' if kind == 'path' else F.NonSeekableSource(size, env)
+    fut = m.upload(src, 'bkt', 'key')
+    st, val = H.outcome(fut)
+    if st != 'ok':
+        return 'bw: upload failed'
+    charged = sum(a for a, tok, refused in bucket.log if not refused)
+    sent = sum(s3.body_sizes)
+    if sent != size:
+        return 'bw: harness: bytes sent differ from the size'
+    # each body is sent once after one pre-read; reads are charged by the amount REQUESTED, so the charge of a body
+    # can exceed its length by the final probing reads but never fall below it
+    if charged < sent:
+        return 'bw: bytes sent by an upload were not charged to the bandwidth limiter'
+    return None
+
+
 def _reals(*names):
     return [R.fresh(n) for n in names]
 
@@ -363,6 +396,15 @@ def two_streams_below_limit(n1, n2, s1, t1, s2, t2):
 _INT = ('thr: int, a1: int, e1: bool, a2: int, e2: bool, a3: int, e3: bool, closing_enabled: bool, retry: int')
 _RM = dict(real_model=True)
 OBLIGATIONS = [
+    dict(id='C13.5', impl='upload_wiring', params='size: int, thr: int, chunk: int, r1: int',
+         cases=[('path', False), ('path', True), ('stream', True)],
+         pre=['1 <= size', '1 <= thr', '5 * 1024 ** 2 <= chunk <= 5 * 1024 ** 3', 'size <= 2 * chunk', '-1 <= r1'],
+         splits=[['size < thr'], ['size >= thr']], timeout=(170, 900),
+         bounds='<= 2 parts; size/threshold/chunk symbolic; every body pre-read once while disabled, then sent; the '
+                'request-created handlers see the body directly or wrapped in botocore AwsChunkedWrapper',
+         encodes=['TransferManager.__init__ (bandwidth limiter)', 'UploadInputManager._wrap_fileobj',
+                  'signal_not_transferring / signal_transferring', 'BandwidthLimitedStream.read/close'],
+         assumptions=['S1', 'S2', 'A3']),
     dict(id='C13.6', impl='two_streams_below_limit', params='s1: int, t1: int, s2: int, t2: int',
          cases=[(2, 2), (3, 1)], pre=['-1 <= s1 <= 24', '-1 <= s2 <= 24', '0 <= t1 <= 1', '0 <= t2 <= 1'],
          splits=[['s1 <= 8'], ['8 < s1 <= 16'], ['16 < s1']], timeout=(170, 900),
